@@ -827,6 +827,7 @@ func (d *refreshDebouncer) flusher() {
 		case <-d.timer.C:
 		case <-d.quit:
 		}
+		verifPoint("rd.woke")
 		d.mu.Lock()
 		if d.stopped {
 			if d.broadcaster != nil {
@@ -869,6 +870,7 @@ func (d *refreshDebouncer) stop() {
 	}
 	d.stopped = true
 	d.mu.Unlock()
+	verifPoint("rd.stop.marked")
 	d.quit <- struct{}{} // sync with flusher
 	close(d.quit)
 }
